@@ -16,7 +16,11 @@ A *case* is a JSON-able dict:
 
 from __future__ import annotations
 
+import asyncio
+import os
 import re
+import shutil
+import tempfile
 from collections.abc import Mapping
 from typing import Any
 
@@ -503,19 +507,82 @@ class Static:
         self.variable_names = {str(k) for k in a.variables}
 
 
+_LOOP: Any = None
+_SUSPENDING: Any = None
+LOADER_KINDS = ("dict", "suspend", "fs")
+
+
+def run_async(coro: Any) -> Any:
+    """Run a liquid2 coroutine to completion under a real event loop (one per process),
+    so that any legal asyncio use in the code under test works (gather, sleep,
+    run_in_executor of the file system loader, ...)."""
+    global _LOOP  # noqa: PLW0603
+    if _LOOP is None or _LOOP.is_closed():
+        _LOOP = asyncio.new_event_loop()
+    return _LOOP.run_until_complete(coro)
+
+
+drive = run_async  # old name
+
+
+def suspending_loader(templates: dict[str, str]) -> Any:
+    """A DictLoader whose async path really suspends: 1-3 trips through the event loop,
+    the number depending on the template name (so that concurrent loads finish in an
+    order different from the one they were started in)."""
+    global _SUSPENDING  # noqa: PLW0603
+    if _SUSPENDING is None:
+        from liquid2 import DictLoader
+
+        class SuspendingDictLoader(DictLoader):
+            async def get_source_async(self, env, template_name, *, context=None, **kwargs):  # noqa: ANN001, ANN003, ANN202
+                for _ in range(1 + sum(map(ord, template_name)) % 3):
+                    await asyncio.sleep(0)
+                return self.get_source(env, template_name, context=context, **kwargs)
+
+        _SUSPENDING = SuspendingDictLoader
+    return _SUSPENDING(templates)
+
+
 class Case:
-    """A loaded case: environment, root template, name<->source maps."""
+    """A loaded case: environment (dict loader, suspending dict loader or file system
+    loader over a scratch directory), root template, name<->source maps."""
 
     def __init__(self, case: dict[str, Any]):
         from liquid2 import DictLoader
+        from liquid2 import FileSystemLoader
         from liquid2.shopify import Environment
 
         self.case = case
         self.templates: dict[str, str] = case["templates"]
         self.root: str = case["root"]
         self.dynamic = bool(case.get("dynamic"))
-        self.env = Environment(loader=DictLoader(self.templates))
-        self.t = self.env.get_template(self.root)
+        self.tmp: str | None = None
+        kind = case.get("loader") or "dict"
+        if kind == "fs" and not self._fs_ok():
+            kind = "suspend"
+        self.loader_kind = kind
+        if kind == "fs":
+            self.tmp = tempfile.mkdtemp(prefix="vf-c11-")
+            try:
+                for n, src in self.templates.items():
+                    fp = os.path.join(self.tmp, *n.split("/"))
+                    os.makedirs(os.path.dirname(fp), exist_ok=True)
+                    with open(fp, "w", encoding="utf-8", newline="") as f:
+                        f.write(src)
+            except OSError:
+                self.close()
+                raise KeyError("cannot lay out the template set as files") from None
+            loader: Any = FileSystemLoader(self.tmp)
+        elif kind == "suspend":
+            loader = suspending_loader(self.templates)
+        else:
+            loader = DictLoader(self.templates)
+        try:
+            self.env = Environment(loader=loader)
+            self.t = self.env.get_template(self.root)
+        except BaseException:
+            self.close()
+            raise
         self.root_src = self.templates[self.root]
         self.names_of: dict[str, list[str]] = {}
         for n, s in self.templates.items():
@@ -523,18 +590,26 @@ class Case:
         if self.t.name not in self.names_of[self.root_src]:
             self.names_of[self.root_src].append(self.t.name)
 
+    def _fs_ok(self) -> bool:
+        """Can the set live in a directory with byte-identical sources?"""
+        names = list(self.templates)
+        for n in names:
+            parts = n.split("/")
+            if n.startswith("/") or any(p in ("", ".", "..") for p in parts) or "\\" in n or "\0" in n:
+                return False
+            if any(m != n and m.startswith(n + "/") for m in names):
+                return False  # a file and a directory of the same name
+        return not any("\r" in s for s in self.templates.values())  # universal newlines would rewrite them
+
+    def close(self) -> None:
+        if self.tmp is not None:
+            shutil.rmtree(self.tmp, ignore_errors=True)
+            self.tmp = None
+
     def source_named(self, name: str) -> str | None:
         if name == self.t.name:
             return self.root_src
         return self.templates.get(name)
-
-
-def drive(coro: Any) -> Any:
-    try:
-        while True:
-            coro.send(None)
-    except StopIteration as stop:
-        return stop.value
 
 
 class Checker:
@@ -769,8 +844,8 @@ class Checker:
         t = cs.t
         self.count("analysis_pairs")
         try:
-            a2 = drive(t.analyze_async(include_partials=inc))
-        except LiquidError as e:
+            a2 = run_async(t.analyze_async(include_partials=inc))
+        except Exception as e:  # noqa: BLE001 -- the sync analysis of the same template succeeded
             out.append((f"analyze-async:raised:{type(e).__name__}",
                         f"analyze() succeeded, analyze_async() raised {type(e).__name__}: {e}", {}))
             return
@@ -786,19 +861,27 @@ class Checker:
                             {"sync_names": sorted({n for f in ("variables",) for _, vs in c1[f] for _, n, _, _ in vs}),
                              "async_names": sorted({n for f in ("variables",) for _, vs in c2[f] for _, n, _, _ in vs})}))
             else:
-                diff = [f for f in c1 if c1[f] != c2[f]]
-                what = diff[0]
-                f1 = {k: v for k, v in c1[what]}
-                f2 = {k: v for k, v in c2[what]}
-                if set(f1) == set(f2) and all(sorted(map(repr, f1[k])) == sorted(map(repr, f2[k])) for k in f1):
-                    kind = f"{what}-order-differs"
-                elif [(k, [x[:1] + x[2:] if what in ("variables", "globals", "locals") else x[1:] for x in v]) for k, v in c1[what]] == \
-                        [(k, [x[:1] + x[2:] if what in ("variables", "globals", "locals") else x[1:] for x in v]) for k, v in c2[what]]:
-                    kind = f"{what}-template-names-differ"
-                else:
-                    kind = f"{what}-differ"
-                out.append((f"analyze-async:{kind}",
-                            f"analyze_async() != analyze() in {diff}",
+                diff = [f for f in ("globals", "variables", "filters", "tags", "locals") if c1[f] != c2[f]]
+                kinds: dict[str, str] = {}
+                for what in diff:
+                    f1 = {k: v for k, v in c1[what]}
+                    f2 = {k: v for k, v in c2[what]}
+                    strip = (lambda x: x[:1] + x[2:]) if what in ("variables", "globals", "locals") else (lambda x: x[1:])
+                    if set(f1) == set(f2) and all(sorted(map(repr, f1[k])) == sorted(map(repr, f2[k])) for k in f1):
+                        kinds[what] = "order-differs"
+                    elif [(k, [strip(x) for x in v]) for k, v in c1[what]] == [(k, [strip(x) for x in v]) for k, v in c2[what]]:
+                        kinds[what] = "template-names-differ"
+                    else:
+                        kinds[what] = "differ"
+                # one key: content before naming before order; globals first (soundness)
+                what = next((w for k in ("differ", "template-names-differ", "order-differs")
+                             for w in diff if kinds[w] == k))
+                missing = sorted(set(k for k, _ in c1[what]) - set(k for k, _ in c2[what]))
+                extra = sorted(set(k for k, _ in c2[what]) - set(k for k, _ in c1[what]))
+                out.append((f"analyze-async:{what}-{kinds[what]}",
+                            f"analyze_async() != analyze(): {kinds}"
+                            + (f"; async lacks {what} {missing}" if missing else "")
+                            + (f"; async adds {what} {extra}" if extra else ""),
                             {"sync": c1[what][:6], "async": c2[what][:6]}))
 
         # helper methods
@@ -820,17 +903,18 @@ class Checker:
                 self.count("helper_calls")
                 try:
                     if suffix:
-                        got = drive(getattr(t, meth + suffix)(include_partials=inc))
+                        got = run_async(getattr(t, meth + suffix)(include_partials=inc))
                     else:
                         got = getattr(t, meth)(include_partials=inc)
-                except LiquidError as e:
+                except Exception as e:  # noqa: BLE001
                     out.append((f"helper:{meth}{suffix}:raised",
                                 f"{meth}{suffix}() raised {type(e).__name__} where analyze() succeeded", {}))
                     continue
                 gl = [seg_tuple(g) if meth.endswith("segments") else g for g in got]
                 if set(gl) != exp:
                     out.append((f"helper:{meth}{suffix}:differs-from-analyze",
-                                f"{meth}{suffix}() = {sorted(map(repr, gl))[:12]} but analyze() gives {sorted(map(repr, exp))[:12]}",
+                                f"{meth}{suffix}() lacks {sorted(map(repr, exp - set(gl)))[:8]} and adds "
+                                f"{sorted(map(repr, set(gl) - exp))[:8]} with respect to analyze()",
                                 {"method": meth + suffix}))
                 elif len(gl) != len(set(gl)):
                     out.append((f"helper:{meth}{suffix}:duplicates",
@@ -1044,6 +1128,18 @@ def _short_path(path: list[object]) -> str:
 
 
 def run_case(chk: Checker, case: dict[str, Any], only: str | None = None) -> list[tuple[str, str, dict[str, Any]]] | None:
+    """_run_case, and the scratch directory of a file-system case is always removed."""
+    global ACTIVE  # noqa: PLW0603
+    holder: list[Case] = []
+    try:
+        return _run_case(chk, case, only, holder)
+    finally:
+        ACTIVE = None
+        for cs in holder:
+            cs.close()
+
+
+def _run_case(chk: Checker, case: dict[str, Any], only: str | None, holder: list[Case]) -> list[tuple[str, str, dict[str, Any]]] | None:
     """Execute the oracle on one case.  None = the case is not a valid program of the
     workload (does not parse / references a template outside the set).  *only* (a
     violation key) restricts the run to the parts that can produce that key (used while
@@ -1059,6 +1155,7 @@ def run_case(chk: Checker, case: dict[str, Any], only: str | None = None) -> lis
     ctx = chk.ctx if chk.record else None
     try:
         cs = Case(case)
+        holder.append(cs)
         for n in cs.templates:
             cs.env.get_template(n)
     except LiquidError:
@@ -1089,6 +1186,7 @@ def run_case(chk: Checker, case: dict[str, Any], only: str | None = None) -> lis
         out += [m for m in more if (m[2].get("template_name"), m[2].get("start"), m[2].get("end")) not in flagged]
     if want_async:
         chk.check_async_and_helpers(cs, a, out)
+        chk.count("analysis_pairs:" + cs.loader_kind)
     binders = set(case.get("binders") or ())
     rec = chk.rec
     chk.case_exec = set()
@@ -1102,7 +1200,7 @@ def run_case(chk: Checker, case: dict[str, Any], only: str | None = None) -> lis
         status = "ok"
         try:
             if mode == "async":
-                drive(cs.t.render_async())
+                run_async(cs.t.render_async())
             else:
                 cs.t.render()
         except LiquidError as e:
